@@ -37,6 +37,14 @@ fn base_assumptions() -> Vec<String> {
     ]
 }
 
+/// C03: a tracked struct whose creator's durability is raised or lowered by writes; a function
+/// that reads only a field whose value stays equal must be reused after a raise.
+#[cfg(not(feature = "conc"))]
+fn c03_dur_structs() -> Vec<ql::ex::Program> {
+    use ql::ex::Dur::*;
+    vec![progs::dur_struct(Low, Low, Low), progs::dur_struct(High, Low, High), progs::dur_struct(Medium, High, High)]
+}
+
 #[cfg(not(feature = "conc"))]
 pub fn e1_spec(id: &str, tier: &str) -> Option<Spec> {
     let quick = tier == "quick";
@@ -92,16 +100,19 @@ pub fn e1_spec(id: &str, tier: &str) -> Option<Spec> {
             programs: if quick {
                 let mut v = progs::quick_p3();
                 v.extend(progs::durq_set());
+                v.extend(c03_dur_structs());
                 v
             } else {
                 let mut v = progs::all_p3();
                 v.extend(progs::p4_set());
                 v.extend(progs::durq_set());
+                v.extend(c03_dur_structs());
                 v
             },
             depth: if quick { 4 } else { 5 },
-            alphabet: Box::new(progs::base_alphabet),
-            flags: Flags { values: true, justify: true, ..Flags::default() },
+            // (the struct programs are explored with durability-changing writes)
+            alphabet: Box::new(|p: &ql::ex::Program| if p.name.starts_with("dur-struct") { progs::dur_alphabet(p) } else { progs::base_alphabet(p) }),
+            flags: Flags { values: true, justify: true, needs_pre_world: true, ..Flags::default() },
             rule: RULE_E1,
             cap_s: cap,
             config: "seq",
@@ -305,6 +316,10 @@ pub fn e1_spec(id: &str, tier: &str) -> Option<Spec> {
             for k in kinds {
                 if !c13 {
                     programs.extend(progs::lazy_input_cycles(k));
+                    // a head that calls a participant only in its first iteration
+                    let mut vd = progs::vdep_cycle(k);
+                    vd.nodes[0].alt = Some(ql::ex::Ex::or(ql::ex::Ex::Call(1), ql::ex::Ex::K(4)));
+                    programs.push(vd);
                 }
                 if quick {
                     programs.extend(progs::quick_cyc(k, if c13 { 140 } else { 280 }));
@@ -364,7 +379,7 @@ const RULE_E2: &str = "every thread interleaving of the listed scenarios with at
 fn e2_assumptions() -> Vec<String> {
     vec![
         "sequentially consistent interleavings only (no weak-memory behaviours)".into(),
-        "operations of third-party lock-free code not routed through salsa's sync shim (boxcar, crossbeam SegQueue, std OnceLock in function.rs, the std AtomicU8 of CancellationToken) execute atomically between scheduling points".into(),
+        "operations of third-party lock-free code not routed through salsa's sync shim (boxcar, crossbeam SegQueue, std OnceLock in function.rs, and - except in C21, hook H3 - the std AtomicU8 of CancellationToken) execute atomically between scheduling points".into(),
         "no spurious condvar wake-ups; preemption bound and scenario set as listed in coverage.bounds".into(),
     ]
 }
